@@ -305,6 +305,53 @@ def check_replace(P, E, ctx):
         ctx.proved(rule, 'Table_Set_Move:replace', site(fn), 'replace: destruct key+value before overwrite, count unchanged; insert: no destruct, count +1')
 
 
+def tree_pred_copy_extent(P, fn, g, mc):
+    """the byte copies from the predecessor node into the removed node cover exactly the payload
+    [3W, 3W + H + ksize + H + vsize), same offsets on both sides. True or a reason."""
+    N = util.Norm(P, fn, expand_locals=False)
+    ivs = []
+    bases = set()
+    for n in mc:
+        for c in ir.calls(n['expr']):
+            if ir.callee_name(c) != 'memcpy':
+                continue
+            d, s_, ln = (N.canon(a) for a in c[2])
+
+            def split(e):
+                # e = base_local + offset  -> (base, Poly offset)
+                locs = [x for x in ir.walk(e) if x[0] == 'local']
+                if len(set(locs)) != 1:
+                    return None, None
+                b = locs[0]
+                off = poly.from_expr(e) - poly.Poly.atom(b[1])
+                if b[1] in off.atoms():
+                    return None, None
+                return b, off
+            db, doff = split(d)
+            sb, soff = split(s_)
+            if db is None or sb is None:
+                return 'copy operands are not node + offset'
+            if doff != soff:
+                return 'destination offset %r differs from source offset %r' % (doff, soff)
+            bases.add((db, sb))
+            ivs.append((doff, doff + poly.from_expr(ln)))
+    if len(bases) != 1:
+        return 'copies do not all go from the predecessor node to the removed node'
+    want_lo = poly.Poly.const(24)
+    want_hi = poly.Poly.const(24) + poly.Poly.atom('H') + poly.Poly.atom('H') + poly.Poly.atom('arg0->ksize') + poly.Poly.atom('arg0->vsize')
+    cur = want_lo
+    remaining = list(ivs)
+    while remaining:
+        nxt = [iv for iv in remaining if iv[0] == cur]
+        if not nxt:
+            return 'copied bytes %s do not tile the payload [%r, %r)' % ([(repr(a), repr(b)) for a, b in ivs], want_lo, want_hi)
+        cur = nxt[0][1]
+        remaining.remove(nxt[0])
+    if cur != want_hi:
+        return 'copied bytes end at %r, the payload (both headers, key and value) ends at %r' % (cur, want_hi)
+    return True
+
+
 def check_move_not_copy(P, E, ctx):
     rule = 'C05.move-not-copy'
     # (1) Table_Rehash relocates byte-wise: calls the insertion with move=true, never destructs, frees the old store after the loop
@@ -362,8 +409,8 @@ def check_move_not_copy(P, E, ctx):
     mc = [n for (n, c) in g.nodes_calling('memcpy')]
     des = [n for (n, c) in g.nodes_calling('destruct')]
     fr = [n for (n, c) in g.nodes_calling('free')]
-    ok = len(mc) == 1 and len(des) == 2 and len(fr) == 1 and all(g.must_pass(mc[0]['id'], [d['id']]) for d in des) and \
-        all(d['id'] not in g.reach_from(mc[0]['id']) for d in des) and g.must_pass(g.exit, [fr[0]['id']], start=des[0]['id'])
+    ok = len(mc) >= 1 and len(des) == 2 and len(fr) == 1 and all(g.must_pass(m['id'], [d['id']]) for d in des for m in mc) and \
+        all(d['id'] not in g.reach_from(m['id']) for d in des for m in mc) and g.must_pass(g.exit, [fr[0]['id']], start=des[0]['id'])
     if ok:
         # after the copy the node variable is redirected to the predecessor, which is what gets freed
         N = util.Norm(P, fn, inline=False)
@@ -377,6 +424,11 @@ def check_move_not_copy(P, E, ctx):
         if ok:
             freed = ir.top_nocast([c for c in ir.calls(fr[0]['expr']) if ir.callee_name(c) == 'free'][0][2][0])
             ok = freed == ir.top_nocast(ir.top_nocast(redirect[0]['expr'])[2])
+    if ok:
+        why = tree_pred_copy_extent(P, fn, g, mc)
+        if why is not True:
+            ok = False
+            ctx.note('Tree_Rem predecessor copy: %s' % why)
     ctx.check(ok, rule, 'Tree_Rem:predecessor', site(fn), 'the predecessor\'s bytes replace the removed entry only after its key and value were destructed; '
               'the predecessor node (now ownerless) is the node that is freed, without a second destruct')
     ctx.floor(rule, 6)
@@ -410,6 +462,48 @@ def check_clear_before_assign(P, E, ctx):
                     raw.append(n)
         ctx.check(not raw, rule, '%s:deep' % fn['name'], site(fn), 'elements are copied through per-element assign / the deep insertion, never by a byte copy out of the source')
     ctx.floor(rule, 8)
+
+
+def check_fresh_slot(P, E, ctx):
+    """Array: a slot that receives a new element is (re)initialised at that very index before assign runs on it,
+    with nothing moving storage in between (assign on a stale bitwise copy would release memory its neighbour owns)"""
+    rule = 'C05.fresh-slot'
+    for fname in ('Array_New', 'Array_Assign', 'Array_Concat', 'Array_Push', 'Array_Push_At'):
+        fn = P.fn(fname)
+        g = P.cfg(fn)
+        ctx.fn(fn)
+        N = util.Norm(P, fn, inline=False)
+        asg = []
+        for n in g.live():
+            if n['expr'] is None:
+                continue
+            for c in ir.calls(n['expr']):
+                if ir.callee_name(c) == 'assign':
+                    a0 = ir.top_nocast(c[2][0])
+                    if a0[0] == 'call' and ir.callee_name(a0) == 'Array_Item':
+                        asg.append((n, N.canon(a0[2][1])))
+        bad = None
+        for (n, idx) in asg:
+            inits = [(m, c) for (m, c) in g.nodes_calling('Array_Alloc') if N.canon(c[2][1]) == idx]
+            doms = [m for (m, c) in inits if g.must_pass(n['id'], [m['id']])]
+            if not doms:
+                bad = (n, 'no Array_Alloc of slot %s dominates the assign into it' % ir.fmt(idx))
+                break
+            # nothing that moves or resizes storage, or changes the count, between the initialisation and the assign
+            m = doms[-1]
+            between = g.reach_from(m['id']) - {m['id']}
+            between = {i for i in between if n['id'] in g.reach_from(i)} - {n['id']}
+            for i in between:
+                x = g.nodes[i]
+                if x['expr'] is not None and any(ir.callee_name(c) in ('memmove', 'memcpy', 'realloc', 'Array_Reserve_More') for c in ir.calls(x['expr'])):
+                    bad = (x, 'storage is moved between the initialisation of the slot and the assign')
+        if not asg:
+            ctx.proved(rule, fname, site(fn), 'delegates insertion (no direct assign into a slot)')
+        elif bad:
+            ctx.refuted(rule, fname, site(fn, bad[0]['line']), 'a new element must be assigned into a slot that was freshly initialised (zeroed and stamped) at that same index: ' + bad[1])
+        else:
+            ctx.proved(rule, fname, site(fn), 'every assign into a new slot is dominated by Array_Alloc of the same index, with no storage movement in between (%d sites)' % len(asg))
+    ctx.floor(rule, 5)
 
 
 def run(ctx, load):
@@ -452,6 +546,7 @@ def run(ctx, load):
     ctx.check(ok, 'C05.full-teardown', 'Tree_Clear', site(fn), 'clears from the root, then resets count and root')
     check_move_not_copy(P, E, ctx)
     check_clear_before_assign(P, E, ctx)
+    check_fresh_slot(P, E, ctx)
 
 
 EXPLANATION = (
